@@ -398,6 +398,12 @@ impl Session {
                 out.insert("stdout".into(), json!(String::from_utf8_lossy(&self.out.lock().unwrap()).to_string()));
                 Value::Object(out)
             }
+            "c04_sweep" => {
+                let fns: Vec<String> = serde_json::from_value(cmd["fns"].clone()).unwrap_or_default();
+                let mut v = crate::c04w::sweep(self, &s("file"), &fns);
+                v["ok"] = json!(true);
+                v
+            }
             "c15_sweep" => {
                 let mut v = crate::c15w::sweep(self);
                 v["ok"] = json!(true);
